@@ -124,9 +124,12 @@ class StructTrip(Harness):
                 if i < n and j < n and j <= i: return 'duplicate pair'
             else:
                 active = [k for k, f in enumerate(fields) if ctx.branch(ctx.sym_bool('set_' + f[0]))]
+            chosen = {}
             for k in active:
                 f = fields[k]
                 v = self.value(it, ctx, 'v_' + f[0], f[2]); info['set'].append(f[0])
+                chosen[f[0]] = v.variant if isinstance(v, Adt) and f[2][0] == 'enum' else v
+                if sp.get('skip') and sp['skip'](chosen): return 'outside the documented use'
                 self.apply(it, obj, f[0], self.arg(v))
             before = self.getters(it, obj)
             rec = xmlmodel.Recorder()
@@ -234,10 +237,14 @@ SPECS['workbook_protection'] = {'name': 'workbook_protection', 'prop': 'C06', 't
     [('set_' + n, 'get_' + n, ('str',)) for n in _wps] + [('set_workbook_spin_count', 'get_workbook_spin_count', ('u32', 0, 200000)), ('set_revisions_spin_count', 'get_revisions_spin_count', ('u32', 0, 200000))]
     + [('set_' + n, 'get_' + n, ('bool',)) for n in ('lock_revision', 'lock_structure', 'lock_windows')]}
 _PF = 'structs::pattern_fill::PatternFill'; _CO = 'structs::color::Color'
-SPECS['pattern_fill'] = {'name': 'pattern_fill', 'prop': 'C05', 'type': _PF, 'read_args': ['$empty'], 'fields': [
-    ('set_pattern_type', 'get_pattern_type', ('enum', 'PatternValues')),
+# colours first, pattern type last: the reader applies them in the opposite order (patternType attribute, then the colour
+# elements through the same setters), so a setter that touches the pattern type shows up as a difference.
+# Not explored: an explicit pattern type None together with a foreground colour, which the library documents as becoming Solid.
+SPECS['pattern_fill'] = {'name': 'pattern_fill', 'prop': 'C05', 'type': _PF, 'read_args': ['$empty'],
+    'skip': lambda vals: 'set_foreground_color' in vals and vals.get('set_pattern_type') == 17, 'fields': [
     ('set_foreground_color', 'get_foreground_color', ('argb_color', ['FFFF0000', 'FF00FF00', '80000000'])),
-    ('set_background_color', 'get_background_color', ('argb_color', ['FF0000FF', 'FFFFFFFF']))]}
+    ('set_background_color', 'get_background_color', ('argb_color', ['FF0000FF', 'FFFFFFFF'])),
+    ('set_pattern_type', 'get_pattern_type', ('enum', 'PatternValues'))]}
 SPECS['color'] = {'name': 'color', 'prop': 'C05', 'type': _CO, 'write': 'write_to_color', 'read_args': ['$empty'], 'setter_generics': {'set_argb': '::<&str>'}, 'fields': [
     ('set_argb', 'get_argb', ('strchoice', ['FFFF0000', 'FF123456', '00000000'])), ('set_indexed', 'get_indexed', ('u32', 0, 65)), ('set_theme_index', 'get_theme_index', ('u32', 0, 11)),
     ('set_tint', 'get_tint', ('f64', [0.5, -0.25, 0.0]))]}
